@@ -55,6 +55,8 @@ def _roundtrip(s, n):
         cover('has-invalid')
     # effective style of the valid settings
     def settled(x):
+        if not term.complete_groups(x):
+            return False                # truncated colour selector: swallows whatever is rendered after it
         try:
             term.red([x])
             return True
@@ -62,7 +64,7 @@ def _roundtrip(s, n):
             return False
     unsettled = any(not settled(x) for row in tab for x in row if valid_text(x))
     if unsettled:
-        cover('out-of-range-colour')
+        cover('out-of-range-colour')           # (or a truncated colour selector)
         all_valid = False               # no claim about the display of such a setting; simplify() must still end parsable
     want = [term.red([x for x in row if valid_text(x) and settled(x)]) for row in tab]
     # (i) render / re-parse
